@@ -12,6 +12,7 @@ import (
 	"github.com/libp2p/go-libp2p/core/crypto"
 	"github.com/libp2p/go-libp2p/p2p/host/eventbus"
 	"golang.org/x/crypto/nacl/secretbox"
+	"google.golang.org/protobuf/encoding/protowire"
 	"google.golang.org/protobuf/proto"
 	"google.golang.org/protobuf/reflect/protoreflect"
 
@@ -30,7 +31,7 @@ import (
 // digest does not move when only forged entries arrive; no EventMetadataReceived is emitted for a
 // forged entry; correctly signed control events of every type ARE accepted and emitted.
 
-var c03forgeries = []string{"other-device-sig", "group-key-sig", "member-key-sig", "signer-swapped", "payload-bitflip", "sig-bitflip", "missing-sig", "unknown-type", "wrong-secret"}
+var c03forgeries = []string{"other-device-sig", "group-key-sig", "member-key-sig", "signer-swapped", "payload-bitflip", "sig-bitflip", "missing-sig", "unknown-type", "wrong-secret", "duplicated-signer-field"}
 
 type c03signer struct {
 	devPub    []byte
@@ -137,6 +138,21 @@ func c03envelope(g *protocoltypes.Group, t protocoltypes.EventType, forgery stri
 			swapped = c03craft(t, otherRaw, subject, grp)
 		}
 		p2, _ := proto.Marshal(swapped)
+		return c03seal(secret, t, p2, sig), true
+	case "duplicated-signer-field":
+		// the serialized payload carries the signer field twice: another device's key first, the victim's last (a
+		// protobuf decoder keeps the last), signed by the other device
+		if groupSigned {
+			return nil, false
+		}
+		fd := payloadMsg.ProtoReflect().Descriptor().Fields().ByName("device_pk")
+		if fd == nil || fd.Kind() != protoreflect.BytesKind {
+			return nil, false
+		}
+		p2 := protowire.AppendTag(nil, fd.Number(), protowire.BytesType)
+		p2 = protowire.AppendBytes(p2, otherRaw)
+		p2 = append(p2, payload...)
+		sig, _ := otherPriv.Sign(p2)
 		return c03seal(secret, t, p2, sig), true
 	case "payload-bitflip":
 		sig, _ := required(payload)
@@ -328,6 +344,27 @@ func c03run(r *kernel.Run, seed uint64) {
 	rounds := 1 + s.r.Choose(4)
 	for round := 0; round < rounds && !r.Failed(); round++ {
 		settleNet()
+		// lagging forger: the Byzantine member is cut off while the honest members go on writing, forges with its
+		// older logical clock, and reconnects: its entries then sort into the MIDDLE of the honest replica's log
+		lagging := s.r.Choose(3) == 0
+		if lagging {
+			for _, o := range s.nodes {
+				if o != B {
+					s.w.Disconnect(B.nn.Index, o.nn.Index)
+				}
+			}
+			for k := 2 + s.r.Choose(2); k > 0; k-- {
+				if op, err := H.gcs[gid].MetadataStore().SendAppMetadata(ctx, []byte(fmt.Sprintf("ahead-%d-%d", round, k))); err == nil {
+					s.wait()
+					valid[op.GetEntry().GetHash().String()] = "H/GroupMetadataPayloadSent"
+				}
+			}
+			s.drain(false, 3000)
+			s.wait()
+			drainEvents()
+			r.Fault("forger_lagging_behind")
+			r.Logf("B is partitioned and lags behind")
+		}
 		before := metaDigest(R.gcs[gid].MetadataStore())
 		// a batch of forged entries only
 		nf := 1 + s.r.Choose(5)
@@ -344,6 +381,13 @@ func c03run(r *kernel.Run, seed uint64) {
 			}
 			for k := s.r.Choose(4); k > 0; k-- {
 				s.netStep(false)
+			}
+		}
+		if lagging {
+			for _, o := range s.nodes {
+				if o != B {
+					s.w.Connect(B.nn.Index, o.nn.Index)
+				}
 			}
 		}
 		settleNet()
